@@ -31,14 +31,30 @@ SPEC = {
                 'original observation for every observation on the witness path (the theorems hold for any size function)',
                 'Go map iteration yields an existing key (hypothesis of C17_terminates); which key is free'],
     'assumptions': ['message ids are compared as byte strings (interned); an empty inner map and an absent key are identified'],
-    'level_text': 'Proof: Coq theorems over the executable model of truncateObservation / truncateLastCommit / truncateChain for ANY size '
-                  'function, ANY limit and ANY choice of the next chain: result fits; error only after every measured observation was too big; '
-                  'termination without panic; the result is exactly the original projected on the commit reports left (messages, token data, '
-                  'costly ids, nonces), reports left are prefixes; refutation theorems for the code before the F20 repair. '
-                  'Correspondence: the three functions against the model with real encoded sizes every run',
-    'level_note': 'Trusted: Coq kernel, hand-written model, differential harness (incl. its size projection and witness-path search). No axioms. '
-                  'Not covered: the GetCommitReports and Filter phases do not truncate (C17_other_phases_partial, stated only); '
-                  'Plugin.Observation is driven end to end in the GetMessages phase only (sink C17_observation, limit = the package constant maxObservationLength).',
-    'modelled': 'truncateObservation, truncateLastCommit, truncateChain, removeCostlyMessages; Encode is an input (size table). In the '
-                'Plugin.Observation part `size` is the encoded size of the WHOLE emitted observation (discovery data included): C17_fits is read with that size',
+    'level_text': 'Proof: 19 closed Coq theorems. 9 property theorems over the executable model of truncateObservation / truncateLastCommit / truncateChain for ANY size '
+                  'function, ANY limit and ANY choice of the next chain (Go map order): the result fits (C17_fits); an error only after every measured observation, down '
+                  'to the last one, was too big (C17_error_only_if_nothing_fits); termination without panic (C17_terminates); the result is exactly the original '
+                  'projected on the commit reports left - messages, token data, costly ids, nonces - and the reports left are prefixes (C17_consistent, _messages, '
+                  '_token_data, _costly). Unrepaired code refuted (F20, repaired in /repo): truncateChain deleted the costly flags of all chains '
+                  '(C17_unfixed_wrong_chain_refuted) and panicked when two costly ids matched (C17_unfixed_panics_refuted). Judge soundness (10 C17_judge_*): the '
+                  "executable property accepts the model's output and implies fits / consistent on the implementation's own answer and REAL encoded size; an Err answer "
+                  'must satisfy the full nothing-fits conclusion along a complete witness path (strengthened: C17_judge_trunc_before_weak). Correspondence, every run: '
+                  'the three real functions with the real Observation.Encode sizes at limits taken from the sizes met on the cut path +-1 (the harness finds the cut '
+                  'sequence that explains the answer, the model replays it); truncateLastCommit / truncateChain on present, empty, absent and report-less chains; '
+                  'execute.Plugin.Observation in the GetMessages phase end to end at the package limit maxObservationLength = 1 MiB, with and without discovery data. No '
+                  'translated leaf function. Partial: the token-data component of consistency is proved under the premise that token data sit under message keys (the '
+                  'harness also builds orphans; there the weaker clause is judged); the GetCommitReports and Filter phases do not truncate (noted in Props/C17.v, not a '
+                  'theorem).',
+    'level_note': 'Trusted: Coq kernel, hand-written model and theorem statements, differential harness incl. its size projection and witness-path search. Specific: the '
+                  'encoded size is the real exectypes.Observation.Encode length measured by the harness for every observation on the witness path (the theorems hold for '
+                  'any size function); Go map iteration yields an existing key (hypothesis of C17_terminates), which one is free; message ids are compared as interned '
+                  'byte strings, an empty inner map and an absent key are identified. Plugin.Observation is driven in the GetMessages phase only; the limit cannot be '
+                  'lowered through the constructor. No axioms.',
+    'technique': 'Coq theorems for any size function, limit and map order (fits, consistent projection, error only if nothing fits, termination) over a hand-written '
+                 "Gallina model; differential correspondence with proved judge replaying the implementation's cut path with real encoded sizes, plus Plugin.Observation "
+                 'at the 1 MiB limit',
+    'modelled': 'truncateObservation, truncateLastCommit, truncateChain, removeCostlyMessages; Encode is an input (size table). In the Plugin.Observation part `size` '
+                'is the encoded size of the WHOLE emitted observation (discovery data included): C17_fits is read with that size. Hand model: Model/Truncate.v; nothing '
+                'of this property is translated from source. Inputs of the model: the size table of the observations on the witness path and the sequence of chains '
+                "Go's map iteration picked (found by the harness)",
 }
